@@ -43,6 +43,10 @@ impl WorkerTree {
         log::trace!("start collecting work");
         let collect_work_timer = Timer::now();
 
+        if !resources.exists(options.input())? && !resources.is_directory(options.input())? {
+            return Err(DarkluaError::resource_not_found(options.input()));
+        }
+
         if let Some(output) = options.output().map(Path::to_path_buf) {
             if resources.is_file(options.input())? {
                 if resources.is_directory(&output)? {
